@@ -543,6 +543,9 @@ func c02ordered(c *Ctx, m *Module) {
 			}
 			return true
 		})
+		if got["recBuf.batchDrainIdx-=1"] {
+			got["recBuf.batchDrainIdx--"] = true
+		}
 		var missing []string
 		for _, w := range want {
 			if !got[w] {
